@@ -15,6 +15,14 @@ import (
 type replayDoc struct {
 	Ops    []Op           `json:"ops"`
 	Expect []replayExpect `json:"expect,omitempty"`
+	// other artefact kinds
+	Memo      *string         `json:"memo,omitempty"`      // C15: parser acceptance vs reference predicate
+	Genesis   json.RawMessage `json:"genesis,omitempty"`   // C17: ValidateGenesis => InitGenesis
+	Amount    string          `json:"amount,omitempty"`    // C04 pure level
+	Fees      []FeeSpec       `json:"fees,omitempty"`
+	FaultPlan []string        `json:"fault_plan,omitempty"` // C03: "<index>:<site>"
+	InnerMode string          `json:"inner_mode,omitempty"`
+	Stray     int64           `json:"stray,omitempty"`
 }
 
 type replayExpect struct {
@@ -43,7 +51,10 @@ func runReplay(path string) int {
 		fmt.Println("HARNESS-ERROR fixture:", err)
 		return 2
 	}
-	fmt.Printf("replaying %s (%s): %s\n", v.Property, v.Kind, v.What)
+	fmt.Printf("replaying %s (%s): %s\n", v.Property, v.Kind, trunc(v.What, 600))
+	if code, handled := replaySpecial(w, v, doc, path); handled {
+		return code
+	}
 	ctx := Branch(w.Ctx)
 	var last OpResult
 	var orbBefore, orbAfter sdk.Coins
@@ -91,4 +102,149 @@ func runReplay(path string) int {
 		fmt.Println("replay finished; recorded post-conditions hold (or none recorded)")
 	}
 	return code
+}
+
+// replaySpecial re-evaluates the non-operation-list artefacts (plain sequential code, no explorer).
+func replaySpecial(w *World, v Violation, doc replayDoc, path string) (int, bool) {
+	viol := func(msg string) int {
+		fmt.Printf("VIOLATION property=%s replay=%s (%s)\n", v.Property, path, msg)
+		return 1
+	}
+	switch {
+	case doc.Memo != nil:
+		parser, err := adapterctrlNewParser(w)
+		if err != nil {
+			fmt.Println("HARNESS-ERROR", err)
+			return 2, true
+		}
+		pref, err := w.newPayloadRef()
+		if err != nil {
+			fmt.Println("HARNESS-ERROR", err)
+			return 2, true
+		}
+		var perr error
+		var pan any
+		func() {
+			defer func() { pan = recover() }()
+			_, perr = parser.ParsePayload([]byte(*doc.Memo))
+		}()
+		wf, why := pref.WellFormed(*doc.Memo)
+		fmt.Printf("  memo: %s\n  parser: err=%v panic=%v\n  reference predicate: well-formed=%v %s\n", trunc(*doc.Memo, 600), perr, pan, wf, why)
+		if pan != nil {
+			return viol("parser panics"), true
+		}
+		if perr == nil && !wf {
+			return viol("accepted but not well-formed: " + why), true
+		}
+		fmt.Println("replay finished; the parser's verdict agrees with the reference predicate")
+		return 0, true
+	case len(doc.Genesis) > 0:
+		om, err := w.orbiterModule()
+		if err != nil {
+			fmt.Println("HARNESS-ERROR", err)
+			return 2, true
+		}
+		var verr error
+		var vpan, ipan any
+		func() {
+			defer func() { vpan = recover() }()
+			verr = om.ValidateGenesis(w.App.appCodec, nil, doc.Genesis)
+		}()
+		fmt.Printf("  ValidateGenesis: err=%v panic=%v\n", verr, vpan)
+		if vpan != nil {
+			return viol("ValidateGenesis panics"), true
+		}
+		if verr != nil {
+			fmt.Println("replay finished; the document is rejected by validation")
+			return 0, true
+		}
+		b := Branch(w.Ctx)
+		w.wipeOrbiterStore(b)
+		func() {
+			defer func() { ipan = recover() }()
+			om.InitGenesis(b, w.App.appCodec, doc.Genesis)
+		}()
+		fmt.Printf("  InitGenesis: panic=%v\n", ipan)
+		if ipan != nil {
+			return viol("validated genesis cannot be initialised"), true
+		}
+		if _, _, problem := w.genesisRoundTrip(b); problem != "" {
+			return viol("state from validated genesis does not round-trip: " + problem), true
+		}
+		fmt.Println("replay finished; validated, initialised and round-trips")
+		return 0, true
+	case doc.Amount != "":
+		A, ok := parseIntLikeSDK(doc.Amount)
+		if !ok {
+			fmt.Println("HARNESS-ERROR bad amount")
+			return 2, true
+		}
+		rep := NewReport(v.Property, "quick", "exploration")
+		bank := &recBank{}
+		fc, err := newFeeController(bank)
+		if err != nil {
+			fmt.Println("HARNESS-ERROR", err)
+			return 2, true
+		}
+		var shapes []feeShape
+		for _, f := range doc.Fees {
+			shapes = append(shapes, feeShape{Name: f.String(), To: f.To, Bps: f.Bps, Fix: f.Fixed, IsFx: f.IsFixed()})
+		}
+		c04Pure(rep, w, fc, bank, Branch(w.Ctx), A, shapes)
+		fmt.Printf("  amount=%s fees=%v\n  sends recorded: %v\n  reference: %+v\n", A, doc.Fees, bank.sends, feeRef(A, doc.Fees))
+		if rep.NumViolations() > 0 {
+			return viol(rep.Violations[0].Kind + ": " + trunc(rep.Violations[0].What, 300)), true
+		}
+		fmt.Println("replay finished; the fee action agrees with the reference")
+		return 0, true
+	case len(doc.FaultPlan) > 0 && len(doc.Ops) == 1 && doc.Ops[0].Pkt != nil:
+		in, err := NewInstr(w, true)
+		if err != nil {
+			fmt.Println("HARNESS-ERROR", err)
+			return 2, true
+		}
+		ctx := Branch(w.Ctx)
+		if doc.Stray > 0 {
+			_ = w.Deposit(ctx, w.Orb, denomUSDC, doc.Stray)
+		}
+		plan := map[int]bool{}
+		for _, p := range doc.FaultPlan {
+			var i int
+			fmt.Sscanf(p, "%d:", &i)
+			plan[i] = true
+		}
+		ref := Branch(ctx)
+		in.Recv(ref, *doc.Ops[0].Pkt, nil, "")
+		refLedger := w.Snapshot(ref)
+		b := Branch(ctx)
+		r := in.Recv(b, *doc.Ops[0].Pkt, plan, doc.InnerMode)
+		var faulted []string
+		for _, c := range in.Rec.Calls {
+			if c.Faulted {
+				faulted = append(faulted, c.Site)
+			}
+		}
+		bal, sup := LedgerDelta(refLedger, w.Snapshot(b))
+		fmt.Printf("  plan=%v mode=%s faulted=%v\n  -> success=%v panic=%q ack=%s\n  ledger vs fault-free run: bal=%s supply=%s\n", doc.FaultPlan, doc.InnerMode, faulted, r.Success, r.Panic, trunc(string(r.Ack), 300), bal, sup)
+		if r.Panic != "" {
+			return viol("panic under fault"), true
+		}
+		if r.Success {
+			tol := true
+			for _, s := range faulted {
+				if !toleratedSite(s) {
+					tol = false
+				}
+			}
+			if len(bal) != 0 || len(sup) != 0 {
+				return viol("success acknowledgement but fund movements incomplete"), true
+			}
+			if !tol && len(faulted) > 0 {
+				return viol("success acknowledgement despite a failed step"), true
+			}
+		}
+		fmt.Println("replay finished; error acknowledgement (or tolerated fault) as required")
+		return 0, true
+	}
+	return 0, false
 }
